@@ -18,11 +18,14 @@ from aas_core_codegen.python import naming as python_naming
 from aas_core_codegen.common import Identifier
 
 STR_VALUES = ["plain", "", "with 'single' and \"double\" quotes", "back\\slash", "line\nbreak\ttab", "nul\x00char",
-              "ä€\U0001F600", "trailing\\", "{braces}", "%s %d", "\"\"\"", "'''", "\r", "\x7f\x85 "]
+              "ä€\U0001F600", "trailing\\", "{braces}", "%s %d", "\"\"\"", "'''", "\r", "\x7f\x85 ",
+              # an escape followed by a character that could extend it: NUL + octal digit, control + hex digit
+              "v\x001", "x\x007", "\x01f", "\x7f0", "\\x41", "\\N{DASH}"]
 INT_VALUES = [0, 1, 7, 2 ** 31, 2 ** 63, 10 ** 20]  # a negative number is not a literal for the front end
 FLOAT_VALUES = [0.0, 1.5, 2.25, 1e300, 1e-300, 123456789.123456789]
 BYTES_VALUES: List[bytes] = []  # the front end has no literal form for byte-array constants
-ENUM_VALUES = ["ok", "not-ok", "", "with space", "qu\"ote", "back\\slash", "ä", "UPPER", "upper", "new\nline"]
+ENUM_VALUES = ["ok", "not-ok", "", "with space", "qu\"ote", "back\\slash", "ä", "UPPER", "upper", "new\nline",
+               "L\x000", "L\x00"]
 
 
 def _lit(v: Any) -> str:
